@@ -35,26 +35,45 @@ GatesOf(ln, L, cyc) ==
   [k \in 1..Len(ln.gates) |-> [b |-> BondOfSites(ln.gates[k].i, ln.gates[k].j, L, cyc),
                                c |-> <<ln.gates[k].p, ln.gates[k].q>>]]
 
-\* the target time the specification assigns to the call
+\* the target time the specification assigns to the call (a direct sweep does not advance time)
 TargetOf(ln, o) ==
   CASE ln.op = "update_to" -> ln.T
     [] ln.op = "at_times"  -> SortTs(ln.ts)[Len(ln.ts)]
     [] ln.op = "step"      -> o.t + (IF ln.dt = DtNone THEN o.sdt ELSE ln.dt)
+    [] ln.op = "sweep"     -> o.t
+
+IsDirect(ln) == ln.op \in {"step", "sweep"}
 
 \* the step in force during the call (tolerance route: whatever quimb chose, observed)
 StepOf(ln, o) ==
-  IF ln.op = "step" THEN (IF ln.dt = DtNone THEN o.sdt ELSE ln.dt)
+  IF IsDirect(ln) THEN (IF ln.dt = DtNone THEN o.sdt ELSE ln.dt)
   ELSE IF ln.tolmode THEN ln.dtused
   ELSE IF ln.dt = DtNone THEN o.dt0 ELSE ln.dt
 
 Backwards(ln, o) == ln.op = "update_to" /\ ln.T < o.t
 
+\* the formula a direct call asks for
+AskedOf(ln, o) ==
+  IF ln.op = "step" THEN StepFormula(ln.order, StepOf(ln, o))
+  ELSE << Lay(ln.d, CMulInt(<<ln.fp, 0>>, StepOf(ln, o))) >>
+
 ModelAfter(ln, o) ==
-  LET b == [t |-> o.t, sdt |-> o.sdt, dt0 |-> o.dt0, queue |-> <<>>, layers |-> <<>>, br |-> {}]
-      dtc == IF ln.op # "step" /\ ln.tolmode THEN ln.dtused ELSE ln.dt
+  LET b == [t |-> o.t, sdt |-> o.sdt, dt0 |-> o.dt0, queue |-> o.mq, layers |-> <<>>, br |-> {}]
+      dtc == IF ~IsDirect(ln) /\ ln.tolmode THEN ln.dtused ELSE ln.dt
   IN  CASE ln.op = "update_to" -> IUpdateTo(b, ln.T, dtc, ln.order)
         [] ln.op = "at_times"  -> IAtTimes(b, ln.ts, dtc, ln.order)
-        [] ln.op = "step"      -> IStep(b, ln.order, ln.dt, FALSE)
+        [] ln.op = "step"      -> IStep(b, ln.order, ln.dt, ln.q)
+        [] ln.op = "sweep"     -> IPubSweep(b, ln.d, ln.fp, ln.dt, ln.q)
+
+\* layers the call performed, read back from its gates (<<>> if a gate is off the grid)
+LayersOf(ln, o) ==
+  IF \A k \in 1..Len(ln.gates) : GateOK(ln.gates[k], o.L, o.cyc)
+  THEN LayersOfGroups(GroupGates(GatesOf(ln, o.L, o.cyc))) ELSE <<>>
+
+\* segments: everything performed / asked for since the queue was last empty (C11_TEBD)
+SegOf(ln, o)   == (IF o.pending THEN o.seg ELSE <<>>) \o LayersOf(ln, o)
+BaseKnown(o)   == IF o.pending THEN o.known ELSE <<>>
+KnownOf(ln, o) == BaseKnown(o) \o (IF IsDirect(ln) THEN AskedOf(ln, o) ELSE <<>>)
 
 CallClauses(ln, o) ==
   LET L == o.L
@@ -63,9 +82,13 @@ CallClauses(ln, o) ==
       allok == \A k \in 1..Len(ln.gates) : GateOK(ln.gates[k], L, cyc)
       gs == IF allok THEN GatesOf(ln, L, cyc) ELSE <<>>
       groups == GroupGates(gs)
-      ls == LayersOfGroups(groups)
       T == TargetOf(ln, o)
+      seg == SegOf(ln, o)
+      known == KnownOf(ln, o)
+      X == LeftDivide(BaseKnown(o), seg)            \* what a closing update_to / at_times contributed
+      rest == LeftDivide(seg, known)                \* what a direct call still owes
       run == ln.exc = "" /\ ~back /\ allok /\ ln.tgrid /\ ln.dtgrid
+      direct == IsDirect(ln)
   IN
   << <<"Returns", ~back => ln.exc = "">>,
      \* going backwards is documented as not implemented: it must be refused without touching the state
@@ -73,13 +96,17 @@ CallClauses(ln, o) ==
      <<"GatesOnGrid", (ln.exc = "" /\ ~back) => (allok /\ ln.dtgrid)>>,
      <<"LayersComplete", run => GroupsComplete(groups, L, cyc)>>,
      \* (a chain of two sites has no odd bond: the left sweeps are empty and only the even class can be read back)
-     <<"ProductFormula", run => IF L = 2 THEN SumClass(ls, "R") = CRat(T - o.t) ELSE IsProductFormula(ln.order, ls, o.t, T)>>,
-     <<"ClassSums", run => IF L = 2 THEN SumClass(ls, "R") = CRat(T - o.t) ELSE ClassSums(ls, o.t, T)>>,
-     <<"StepsWithinDt", run => StepsWithin(ln.order, ls, StepOf(ln, o))>>,
-     <<"Symmetric", run => SymmetricProduct(ln.order, ls)>>,
+     <<"ProductFormula", run =>
+          IF L = 2
+          THEN (ln.q \/ SumClass(seg, "R") = CAdd(SumClass(known, "R"), IF direct THEN CZero ELSE CRat(T - o.t)))
+          ELSE IF direct THEN (IF ln.q THEN Len(rest) <= 1 ELSE rest = <<>>)
+          ELSE IsProductFormula(ln.order, X, o.t, T)>>,
+     <<"ClassSums", (run /\ ~direct /\ L > 2) => ClassSums(X, o.t, T)>>,
+     <<"StepsWithinDt", (run /\ ~direct /\ L > 2) => StepsWithin(ln.order, X, StepOf(ln, o))>>,
+     <<"Symmetric", (run /\ ~direct /\ L > 2) => SymmetricProduct(ln.order, X)>>,
      <<"TimeExact", (ln.exc = "" /\ ~back) => (ln.tgrid /\ ln.t = T)>>,
-     <<"QueueDrained", (ln.exc = "" /\ ~back) => ~ln.queued>>,
-     <<"NOTE:TolStepFormula", (ln.exc = "" /\ ~back /\ ln.tolmode) => (ln.dtgrid /\ ln.dtused = ln.dtwant)>>,
+     <<"QueueDrained", (ln.exc = "" /\ ~back /\ ~ln.q) => ~ln.queued>>,
+     <<"NOTE:TolStepFormula", (ln.exc = "" /\ ~back /\ ~direct /\ ln.tolmode) => (ln.dtgrid /\ ln.dtused = ln.dtwant)>>,
      <<"AtTimesYields", (ln.exc = "" /\ ln.op = "at_times") => ln.yields = SortTs(ln.ts)>>,
      <<"GateIsExpmOfTerm", \A k \in 1..Len(ln.gates) : ln.gates[k].dg = 0>>,
      <<"DenseEqualsProduct", (ln.exc = "" /\ ln.dense) => ln.dq = 0>>,
@@ -91,7 +118,11 @@ CallClauses(ln, o) ==
 CallNext(ln, o) ==
   IF ln.exc # "" \/ Backwards(ln, o) THEN o
   ELSE [o EXCEPT !.t = TargetOf(ln, o),
-                 !.sdt = IF ln.op = "step" THEN @ ELSE StepOf(ln, o)]
+                 !.sdt = IF IsDirect(ln) THEN @ ELSE StepOf(ln, o),
+                 !.pending = ln.q,
+                 !.seg = IF ln.q THEN SegOf(ln, o) ELSE <<>>,
+                 !.known = IF ln.q THEN KnownOf(ln, o) ELSE <<>>,
+                 !.mq = ModelAfter(ln, o).queue]
 
 (* ------------------------------- others --------------------------------- *)
 OpsOf(s) == [k \in 1..Len(s) |-> [sites |-> s[k].sites, m |-> [e \in 1..Len(s[k].m) |-> <<s[k].m[e][1], s[k].m[e][2]>>]]]
@@ -144,6 +175,23 @@ TrotClauses(ln) ==
           \A x \in Layers : LayerOf(x) = LayerOf(nl - 1 - x)>>,
      <<"GateIsExpmOfTerm", ln.exc = "" => ln.dg = 0>> >>
 
+\* simple update / TEBDGen sweeps: ln.gates = <<layer, index of the pair, site a, site b>> in the order applied,
+\* `layer` counting the postlayer() calls before the gate
+SuClauses(ln) ==
+  LET G == ln.gates
+      n == Len(G)
+  IN
+  << <<"Returns", ln.exc = "">>,
+     \* every sweep exponentiates every term once
+     <<"SweepAppliesEveryTerm", ln.exc = "" =>
+          \A w \in 0..(ln.npairs - 1) : Cardinality({k \in 1..n : G[k][2] = w}) = ln.nsweeps>>,
+     \* parallel update applies the gates of a layer to the same pre-layer state: they must not share a site
+     <<"ParallelLayerDisjoint", (ln.exc = "" /\ ln.update = "parallel") =>
+          \A j, k \in 1..n : (j # k /\ G[j][1] = G[k][1]) => {G[j][3], G[j][4]} \cap {G[k][3], G[k][4]} = {}>>,
+     <<"GateIsExpmOfTerm", ln.exc = "" => ln.dg = 0>>,
+     \* untruncated, the state is (up to normalisation) the product of the applied gates on the initial state
+     <<"DenseEqualsProduct", ln.exc = "" => ln.dq = 0>> >>
+
 Clauses(ln, o) ==
   CASE ln.ev = "init" -> << <<"Returns", ln.exc = "">> >>
     [] ln.ev = "call" -> IF o.tid = ln.tid THEN CallClauses(ln, o) ELSE << <<"TraceWellFormed", FALSE>> >>
@@ -153,12 +201,14 @@ Clauses(ln, o) ==
                             <<"ExpmOfCurrentTerm", ln.exc = "" => \A k \in 1..Len(ln.dqs) : ln.dqs[k] = 0>> >>
     [] ln.ev = "conv" -> ConvClauses(ln)
     [] ln.ev = "trot" -> TrotClauses(ln)
+    [] ln.ev = "su"   -> SuClauses(ln)
     [] ln.ev = "tgen" -> << <<"Returns", ln.exc = "">>, <<"DenseEqualsProduct", ln.exc = "" => ln.dq = 0>> >>
     [] OTHER -> << <<"UnknownEvent", FALSE>> >>
 
 ObNext(ln, o) ==
   CASE ln.ev = "init" -> [tid |-> ln.tid, L |-> ln.L, cyc |-> ln.cyc, imag |-> ln.imag,
-                          t |-> ln.t0, sdt |-> ln.dt0, dt0 |-> ln.dt0]
+                          t |-> ln.t0, sdt |-> ln.dt0, dt0 |-> ln.dt0,
+                          pending |-> FALSE, seg |-> <<>>, known |-> <<>>, mq |-> <<>>]
     [] ln.ev = "call" -> IF o.tid = ln.tid THEN CallNext(ln, o) ELSE o
     [] OTHER -> o
 
